@@ -41,5 +41,16 @@ UrlSetF == {UrlP("", st, ch, FALSE, p, m) : st \in BOOLEAN, ch \in {<<>>, <<Pf("
            \cup {UrlP("", st, ch, TRUE, "", m) : st \in BOOLEAN, ch \in ResF, m \in {<<>>, [id |-> "5"], [id |-> "5/6"]}}
 BasesFO == BasesF \cup {<<MkF("f1", Ch1, FALSE), MkF("f2", Ch2, FALSE), MkF("f3", Ch3, TRUE)>>,
                         <<Us(<<"u">>), MkF("f1", Ch1, FALSE), MkF("f3", Ch3, TRUE)>>}
+\* sub-alphabet FC: routes registered exactly AT a prefix / resource pattern and below it, then every Clean / Remove (depth 3, unsampled)
+ChainsFC == {<<Pf("/api", <<"a">>)>>, <<Pf("/api", <<"a">>), Pf("/v", <<"b", "c">>)>>}
+HOpsFC == {HF(ch, FALSE, p, G, <<>>) : ch \in ChainsFC, p \in {"", "/x", "/{id}"}} \cup {HF(ch, TRUE, "", G, <<>>) : ch \in ResF}
+          \cup {HF(<<>>, FALSE, "/api/r/{id}/x", G, <<>>), HF(<<>>, FALSE, "/q/x", P, <<>>)}
+ROpsFC == {RmF(ch, TRUE, "", <<>>) : ch \in ResF}
+COpsFC == {ClF(ch, FALSE) : ch \in ChainsFC} \cup {ClF(ch, TRUE) : ch \in ResF}
+UOpsFC == {}
+CfgsFC == {Cfg(FALSE)}
+BasesFC == {<<>>}
+ProbesFC == ProbesF
+MethodsFC == <<"GET", "POST", "OPTIONS">>
 MirrorExtra == [base |-> FALSE, mirror |-> TRUE]
 =============================================================================
